@@ -261,8 +261,8 @@ func TestVerifFallbackChild(t *testing.T) {
 		offs, _, _ := cp.Load()
 		o, _ := offs.Load(1)
 		t.Logf("Load returned: vb 1 resumes at %+v", o)
-	case "open-one-fails", "open-one-fails-socket-closed", "open-one-fails-stream-closed", "open-one-fails-shutdown":
-		cl := &vfFailOneClient{fail: 1, err: map[string]error{"open-one-fails": errors.New("open failed"), "open-one-fails-socket-closed": gocbcore.ErrSocketClosed, "open-one-fails-stream-closed": gocbcore.ErrDCPStreamClosed, "open-one-fails-shutdown": gocbcore.ErrShutdown}[mode]}
+	case "open-one-fails", "open-one-fails-socket-closed", "open-one-fails-stream-closed", "open-one-fails-shutdown", "open-one-fails-temporary", "open-one-fails-busy", "open-one-fails-timeout":
+		cl := &vfFailOneClient{fail: 1, err: map[string]error{"open-one-fails": errors.New("open failed"), "open-one-fails-socket-closed": gocbcore.ErrSocketClosed, "open-one-fails-stream-closed": gocbcore.ErrDCPStreamClosed, "open-one-fails-shutdown": gocbcore.ErrShutdown, "open-one-fails-temporary": gocbcore.ErrTemporaryFailure, "open-one-fails-busy": gocbcore.ErrBusy, "open-one-fails-timeout": gocbcore.ErrTimeout}[mode]}
 		s := newReplayStream(ids, &vfConsumer{}, &vfMetadata{}, &cl.vfClient)
 		s.client = cl
 		s.openAllStreams(ids)
@@ -303,7 +303,7 @@ func TestVerifFallbackLoadAheadIsFatal(t *testing.T) {
 
 // Property C15: one assigned vBucket that cannot be opened stops the client.
 func TestVerifFallbackOpenFailureIsFatal(t *testing.T) {
-	for _, mode := range []string{"open-one-fails", "open-one-fails-socket-closed", "open-one-fails-stream-closed", "open-one-fails-shutdown"} {
+	for _, mode := range []string{"open-one-fails", "open-one-fails-socket-closed", "open-one-fails-stream-closed", "open-one-fails-shutdown", "open-one-fails-temporary", "open-one-fails-busy", "open-one-fails-timeout"} {
 		if died, out := runChild(t, mode); !died {
 			t.Errorf("VIOLATION C15: %s: a vBucket stream that cannot be opened did not stop the client: %.300s", mode, out)
 		}
